@@ -13,7 +13,7 @@ from mc.oracle import ref_value
 ID = "C11"
 LEVEL = "model_checking"
 RULE = (
-    "states = construction recipes over vector variables of sizes 1..6 and matrices up to 3x3 (1xn, nx1, symmetric): "
+    "states = construction recipes over vector variables of sizes 1..6 and matrices up to 3x3 (1xn, nx1, symmetric; several different views of one container object inside one recipe; typed constant data; scalar optyx expressions as operands): "
     "views (every slice over start/stop in {None,0,1,2,-1,-2} and step in {None,1,2,-1}, rows, columns, "
     "sub-matrices, diagonal, T, T.T, views of views), element-wise + - * / ** with vectors, Python / NumPy scalars, "
     "lists and arrays in both operand orders, unary minus, the 10 vectorised functions, v**k and f(v) nodes used as "
@@ -243,6 +243,34 @@ def matrix_ops(tier):
         yield ("msum", ("mbin", "*", X, M))
 
 
+def same_container_views():
+    """several DIFFERENT views of the same row / column / vector of ONE container object inside one recipe (the builder
+    shares the container object), including pairs whose sizes differ and must be rejected"""
+    M = mat(3, 3, "M")
+    B = mat(2, 3, "B")
+    v5 = vec(5)
+    pairs = []
+    for base, i in ((M, 0), (M, 2), (B, 1), (("T", M), 1)):
+        r01, r12, rall, r02 = (("row", base, i, 0, 2, None), ("row", base, i, 1, 3, None), ("row", base, i, None, None, None),
+                               ("row", base, i, 0, 3, 2))
+        pairs += [(r01, r12), (r12, r01), (rall, r12), (r01, rall), (r02, r01), (r01, r02)]
+    for base, j in ((M, 1), (B, 2)):
+        n = 3 if base is M else 2
+        c0, c1, call = ("col", base, 0, n - 1, None, j), ("col", base, 1, n, None, j), ("col", base, None, None, None, j)
+        pairs += [(c0, c1), (c1, c0), (call, c0)]
+    pairs += [(("slice", v5, None, None, 3), ("slice", v5, None, None, 4)), (("slice", v5, None, None, 4), ("slice", v5, None, None, 3)),
+              (("slice", v5, 0, 4, 2), ("slice", v5, 0, 4, None)), (("slice", v5, None, None, None), ("slice", v5, None, None, -1))]
+    for a, b_ in pairs:
+        yield ("dot", a, b_)
+        yield ("vbin", "+", a, b_)
+        yield ("vbin", "*", a, b_)
+        yield ("bin", "-", ("sum", a), ("sum", b_))
+        yield ("sum", ("vbin", "-", a, b_))
+        yield ("bin", "+", ("norm", a, 2, "m"), ("norm", b_, 1, "m"))
+        yield b_
+        yield ("sum", ("vpow", b_, 2))
+
+
 def all_recipes(tier):
     yield from views(tier)
     pool = vpool(tier)
@@ -258,6 +286,7 @@ def all_recipes(tier):
     lvl2 = list(elementwise(lvl2_src[:40] if tier == "quick" else lvl2_src[:200], tier))
     yield from lvl2[:: (3 if tier == "quick" else 1)]
     yield from matrix_ops(tier)
+    yield from same_container_views()
 
 
 NSH = 48
